@@ -188,7 +188,8 @@ func c03CtxAgreement(p *Prog, r *Report, rule string) {
 	}
 	syncCall, asyncCall := false, false
 	// (the context helpers may be functions of the package: withTxn / txnFrom)
-	deepBodies := func(fi *FuncInfo) []*ast.BlockStmt {
+	deepBodies := func(fi *FuncInfo) []*ast.BlockStmt { return p.deepBodies(fi) }
+	_ = func(fi *FuncInfo) []*ast.BlockStmt {
 		res := []*ast.BlockStmt{fi.Decl.Body}
 		seen := map[string]bool{fi.Key: true}
 		for depth, frontier := 0, []*FuncInfo{fi}; depth < 2; depth++ {
@@ -922,4 +923,27 @@ func conflictIf0(info *types.Info, body *ast.BlockStmt) *ast.IfStmt {
 		return true
 	})
 	return ifs
+}
+
+// deepBodies: the body of fi and of the functions of its package it calls statically (two levels).
+func (p *Prog) deepBodies(fi *FuncInfo) []*ast.BlockStmt {
+	res := []*ast.BlockStmt{fi.Decl.Body}
+	seen := map[string]bool{fi.Key: true}
+	for depth, frontier := 0, []*FuncInfo{fi}; depth < 2; depth++ {
+		var next []*FuncInfo
+		for _, g := range frontier {
+			ast.Inspect(g.Decl.Body, func(x ast.Node) bool {
+				if c, ok := x.(*ast.CallExpr); ok {
+					if h := p.staticCallee(g.Pkg, c); h != nil && h.Pkg == fi.Pkg && !seen[h.Key] && h.Decl != nil && h.Decl.Body != nil {
+						seen[h.Key] = true
+						res = append(res, h.Decl.Body)
+						next = append(next, h)
+					}
+				}
+				return true
+			})
+		}
+		frontier = next
+	}
+	return res
 }
